@@ -3,12 +3,15 @@
 (* Bridging a response written for the empty custom types into a contract  *)
 (* that uses chain-custom message types (sylvia::into_response) -- C11.    *)
 (* A response: [msgs (seq of [kind, prof]), attrs, events, data]           *)
+(*   data: one of DataShapes (present-but-empty data is not absent data)   *)
 (*   kind: which chain module the sub-message is for; "custom" is the      *)
 (*         (uninhabited in practice) custom message of the empty type      *)
 (*   prof: a profile of (id, gas limit, reply trigger, payload)            *)
 (***************************************************************************)
 EXTENDS Naturals, Sequences, FiniteSets, TLC
 
+(* the data of a response: absent, present without bytes, one zero byte, some bytes *)
+DataShapes == {"none", "empty", "zero", "bytes"}
 MsgKinds == {"wasm", "bank", "staking", "distribution", "stargate", "ibc", "gov", "custom"}
 
 VARIABLES resp,     \* what the bridged handler returned
@@ -17,7 +20,7 @@ VARIABLES resp,     \* what the bridged handler returned
 bvars == <<resp, stage, result>>
 
 HasCustom(r) == \E i \in 1..Len(r.msgs) : r.msgs[i].kind = "custom"
-NoResp == [msgs |-> <<>>, attrs |-> 0, events |-> 0, data |-> FALSE]
+NoResp == [msgs |-> <<>>, attrs |-> 0, events |-> 0, data |-> "none"]
 Pending == [ok |-> FALSE, r |-> NoResp]
 \* identity on everything but custom messages: order, ids, payloads, gas, triggers, attributes, events, data; no partial response on failure
 BridgeOf(r) == IF HasCustom(r) THEN [ok |-> FALSE, r |-> NoResp] ELSE [ok |-> TRUE, r |-> r]
